@@ -1,48 +1,100 @@
 (* C20 — Loading from Git leaves repository and filesystem untouched on every path.
    Property theorems only: each closed by [exact] of a lemma from Proofs/, followed by Print Assumptions.
-   The model of git (Model/C20_git.v: wt_add, wt_remove, wt_prune, branch_D) is modelled, not verified; it is tied
-   to real git by the oracle correspondence of harness/props/c20.py. *)
+   The model of git (Model/C20_git.v: wt_add, wt_remove, wt_prune, branch_D and their torn forms) is modelled, not
+   verified; it is tied to real git by the oracle correspondence of harness/props/c20.py.
+   Argument order of load_git / check: [guard] (false: the code as it is; true: the proposed repair of finding F2),
+   [force] (the --force flag of `worktree remove`, true in the code), [isrepo]. *)
 From Coq Require Import List ZArith String Ascii Bool Arith.
 From Verif Require Import Lib.Sexp Model.C20_git Proofs.C20_git.
 Import ListNotations.
 Open Scope string_scope. Open Scope list_scope. Open Scope nat_scope.
 
 (* For every repository state, reference, package content, sequence of loader stages / extension hooks (any of which
-   may write into the checkout or raise) and every placement of faults on the git calls (each may fail or raise,
-   before or after taking effect): the repository after load_git is the repository before it EXACTLY WHEN the
-   placement is benign, i.e. neither
-     - `worktree add` took effect and then reported failure / was interrupted (gap_add_after, finding C20-F2), nor
-     - a cleanup call itself failed: `worktree remove` or `branch -D` did not take effect, or `worktree remove`
-       raised so that `branch -D` never ran (excluded_cleanup_fault: no implementation can restore then).
-   Hypotheses: wf (every checked-out branch exists) and p is a fresh temp-dir name. The former hypothesis
-   no_prunable is gone with the repair of finding C20-F3 (tmp_worktree no longer calls `git worktree prune`). *)
+   may write into the checkout or raise) and every placement of faults -- each git call may fail or raise, before or
+   after taking effect, or be TORN (interrupted between its two halves: `worktree add` after `git branch`, `worktree
+   remove` after deleting the directory); the removal of the TemporaryDirectory may raise at once, in the middle or on
+   return --: the repository after load_git is the repository before it EXACTLY WHEN the placement is benign, i.e. none of
+     - `worktree add` left an effect and did not report success (gap_add_after, finding C20-F2, now with its torn form),
+     - a cleanup call itself failed: `worktree remove` or `branch -D` did not take (full) effect, or `worktree remove`
+       raised so that `branch -D` never ran (excluded_cleanup_fault: no implementation can restore then),
+     - the removal of the temporary directory itself failed (excluded_rmtree_fault).
+   Hypotheses: wf (every checked-out branch exists) and p is a fresh temp-dir name. *)
 Theorem C20_state_restored_iff :
   forall s p ref tree evs isrepo F,
   wf s = true -> fresh p s = true ->
-  (fst (load_git true isrepo F p ref tree evs s) = s <-> benign isrepo s ref F = true).
+  (fst (load_git false true isrepo F p ref tree evs s) = s <-> benign isrepo s ref F = true).
 Proof. exact load_git_restored_iff. Qed.
 Print Assumptions C20_state_restored_iff.
 
 Theorem C20_state_restored_modulo_known :
   forall s p ref tree evs isrepo F,
   wf s = true -> fresh p s = true -> benign isrepo s ref F = true ->
-  fst (load_git true isrepo F p ref tree evs s) = s.
+  fst (load_git false true isrepo F p ref tree evs s) = s.
 Proof. exact load_git_state_restored. Qed.
 Print Assumptions C20_state_restored_modulo_known.
 
-(* No temporary directory and no checkout directory is left: for EVERY fault placement, with or without --force,
-   without any hypothesis on the repository beyond the freshness of the temp-dir name. *)
+(* Every path through tmp_worktree + load_git ends in one of the enumerated states, whatever the placement: either
+   nothing was ever created, or the final state is a_exit of one of four abstract states (checkout + registration +
+   branch / registration + branch / branch / nothing), by what happened to the removal of the temporary directory. *)
+Theorem C20_every_path_final_shape :
+  forall s p ref tree evs isrepo F,
+  wf s = true -> fresh p s = true ->
+  fst (load_git false true isrepo F p ref tree evs s) = s \/
+  exists c a, fst (load_git false true isrepo F p ref tree evs s) = a_exit s p (tmp_branch ref) c (f_rmtree F) a.
+Proof. exact load_git_final_shape. Qed.
+Print Assumptions C20_every_path_final_shape.
+
+(* The proposed repair of F2 (existence test of the temporary branch, then `worktree add` inside the try block):
+   the same equivalence WITHOUT a gap predicate -- only faults of the cleanup calls that have something to undo, and of
+   the directory removal, are excluded (benign_guarded). *)
+Theorem C20_repaired_state_restored_iff :
+  forall s p ref tree evs isrepo F,
+  wf s = true -> fresh p s = true ->
+  (fst (load_git true true isrepo F p ref tree evs s) = s <-> benign_guarded isrepo s ref F = true).
+Proof. exact load_git_guarded_restored_iff. Qed.
+Print Assumptions C20_repaired_state_restored_iff.
+
+(* ... in particular: whatever happens to the assert, mkdtemp, list and ADD calls (fail, raise, torn) and whatever the
+   loader and the extensions do, the repository is restored as soon as the three cleanup operations work. *)
+Theorem C20_repaired_restores_when_cleanup_works :
+  forall s p ref tree evs isrepo F,
+  wf s = true -> fresh p s = true ->
+  f_remove F = NoFault -> f_branchD F = NoFault -> f_rmtree F = RmOk ->
+  fst (load_git true true isrepo F p ref tree evs s) = s.
+Proof. exact load_git_guarded_restored. Qed.
+Print Assumptions C20_repaired_restores_when_cleanup_works.
+
+(* ... and it never restores less than the code as it is. *)
+Theorem C20_repair_never_worse :
+  forall s p ref tree evs isrepo F,
+  wf s = true -> fresh p s = true -> f_list F = NoFault ->
+  fst (load_git false true isrepo F p ref tree evs s) = s ->
+  fst (load_git true true isrepo F p ref tree evs s) = s.
+Proof. exact guarded_at_least_as_good. Qed.
+Print Assumptions C20_repair_never_worse.
+
+(* No temporary directory and no checkout directory is left: for EVERY fault placement on the git calls and the
+   loader, both variants, with or without --force, without any hypothesis on the repository beyond the freshness of the
+   temp-dir name -- provided the removal of the TemporaryDirectory itself works ... *)
 Theorem C20_no_tmp_left :
-  forall force isrepo F p ref tree evs s,
-  fresh p s = true ->
-  tmps (fst (load_git force isrepo F p ref tree evs s)) = tmps s /\
-  dirs (fst (load_git force isrepo F p ref tree evs s)) = dirs s.
+  forall guard force isrepo F p ref tree evs s,
+  fresh p s = true -> rm_effective F = true ->
+  tmps (fst (load_git guard force isrepo F p ref tree evs s)) = tmps s /\
+  dirs (fst (load_git guard force isrepo F p ref tree evs s)) = dirs s.
 Proof. exact no_tmp_left. Qed.
 Print Assumptions C20_no_tmp_left.
 
+(* ... and exactly then: once mkdtemp has run, a removal that raises at once or in the middle leaves the directory. *)
+Theorem C20_tmp_left_when_removal_fails :
+  forall guard force isrepo F p ref tree evs s,
+  reaches_add isrepo F = true -> rm_effective F = false ->
+  In p (tmps (fst (load_git guard force isrepo F p ref tree evs s))).
+Proof. exact tmp_left_when_removal_fails. Qed.
+Print Assumptions C20_tmp_left_when_removal_fails.
+
 (* HEAD, the index / working tree / stash of the main worktree and the tags are never written, whatever fails. *)
 Theorem C20_main_worktree_untouched :
-  forall force isrepo F p ref tree evs s, same_main s (fst (load_git force isrepo F p ref tree evs s)).
+  forall guard force isrepo F p ref tree evs s, same_main s (fst (load_git guard force isrepo F p ref tree evs s)).
 Proof. exact main_worktree_untouched. Qed.
 Print Assumptions C20_main_worktree_untouched.
 
@@ -51,26 +103,34 @@ Theorem C20_check_state_restored :
   forall s a tree breaking isrepo,
   wf s = true -> fresh (c_p1 a) s = true -> fresh (c_p2 a) s = true ->
   check_benign isrepo s a = true ->
-  fst (check true isrepo a tree breaking s) = s.
+  fst (check false true isrepo a tree breaking s) = s.
 Proof. exact check_state_restored. Qed.
 Print Assumptions C20_check_state_restored.
 
+Theorem C20_check_repaired_state_restored :
+  forall s a tree breaking isrepo,
+  wf s = true -> fresh (c_p1 a) s = true -> fresh (c_p2 a) s = true ->
+  check_benign_guarded isrepo s a = true ->
+  fst (check true true isrepo a tree breaking s) = s.
+Proof. exact check_guarded_state_restored. Qed.
+Print Assumptions C20_check_repaired_state_restored.
+
 Theorem C20_check_exit_code :
-  forall force isrepo a tree breaking s ag s1 vo s2 vn,
+  forall guard force isrepo a tree breaking s ag s1 vo s2 vn,
   against_of a = inl ag -> ro_call (c_f_root a) isrepo = Rc0 -> c_ext_fails a = false ->
-  load_git force isrepo (c_F1 a) (c_p1 a) ag tree (c_evs1 a) s = (s1, Returned vo) ->
-  load_new force isrepo a tree s1 = (s2, Returned vn) ->
-  check force isrepo a tree breaking s = (s2, Returned (if breaking_pair breaking vo vn then 1 else 0)).
+  load_git guard force isrepo (c_F1 a) (c_p1 a) ag tree (c_evs1 a) s = (s1, Returned vo) ->
+  load_new guard force isrepo a tree s1 = (s2, Returned vn) ->
+  check guard force isrepo a tree breaking s = (s2, Returned (if breaking_pair breaking vo vn then 1 else 0)).
 Proof. exact check_exit_code. Qed.
 Print Assumptions C20_check_exit_code.
 
 Theorem C20_check_zero_sound :
-  forall force isrepo a tree breaking s,
-  snd (check force isrepo a tree breaking s) = Returned 0 ->
+  forall guard force isrepo a tree breaking s,
+  snd (check guard force isrepo a tree breaking s) = Returned 0 ->
   exists ag s1 vo s2 vn,
     against_of a = inl ag /\
-    load_git force isrepo (c_F1 a) (c_p1 a) ag tree (c_evs1 a) s = (s1, Returned vo) /\
-    load_new force isrepo a tree s1 = (s2, Returned vn) /\
+    load_git guard force isrepo (c_F1 a) (c_p1 a) ag tree (c_evs1 a) s = (s1, Returned vo) /\
+    load_new guard force isrepo a tree s1 = (s2, Returned vn) /\
     breaking_pair breaking vo vn = false.
 Proof. exact check_zero_sound. Qed.
 Print Assumptions C20_check_zero_sound.
@@ -87,8 +147,8 @@ Print Assumptions C20_history_restored.
 Theorem C20_without_force_refuted :
   exists s p ref tree evs,
     wf s = true /\ fresh p s = true /\ benign true s ref no_faults = true /\
-    fst (load_git false true no_faults p ref tree evs s) <> s /\
-    fst (load_git true true no_faults p ref tree evs s) = s.
+    fst (load_git false false true no_faults p ref tree evs s) <> s /\
+    fst (load_git false true true no_faults p ref tree evs s) = s.
 Proof. exact without_force_refuted. Qed.
 Print Assumptions C20_without_force_refuted.
 
@@ -96,22 +156,31 @@ Print Assumptions C20_without_force_refuted.
 Theorem C20_state_restored_refuted_add_after :
   exists s p ref tree evs F,
     wf s = true /\ fresh p s = true /\ f_add F = FailAfter /\
-    fst (load_git true true F p ref tree evs s) <> s /\
-    snd (load_git true true F p ref tree evs s) = Raised "RuntimeError".
+    fst (load_git false true true F p ref tree evs s) <> s /\
+    snd (load_git false true true F p ref tree evs s) = Raised "RuntimeError".
 Proof. exact add_after_refuted. Qed.
 Print Assumptions C20_state_restored_refuted_add_after.
+
+(* F2, torn form: interrupted after `git branch`, before the registration: the branch alone stays. *)
+Theorem C20_state_restored_refuted_add_torn :
+  exists s p ref tree evs F,
+    wf s = true /\ fresh p s = true /\ f_add F = Torn (Some "KeyboardInterrupt") /\
+    fst (load_git false true true F p ref tree evs s) = leak_branch s (tmp_branch ref) 0 /\
+    fst (load_git false true true F p ref tree evs s) <> s.
+Proof. exact add_torn_refuted. Qed.
+Print Assumptions C20_state_restored_refuted_add_torn.
 
 Theorem C20_cleanup_fault_unrestorable :
   exists s p ref tree evs F,
     wf s = true /\ fresh p s = true /\ f_branchD F = FailBefore /\
-    fst (load_git true true F p ref tree evs s) <> s.
+    fst (load_git false true true F p ref tree evs s) <> s.
 Proof. exact cleanup_fault_refuted. Qed.
 Print Assumptions C20_cleanup_fault_unrestorable.
 
-(* Why dropping `git worktree prune` (repair of F3) loses nothing: in every state the finally block can be in, prune
-   changes nothing when the user's repository has no prunable registration — its only effect ever was on those. *)
+(* Why dropping `git worktree prune` (repair of F3) loses nothing: in every state the finally block can be in (a torn
+   `worktree remove` aside), prune changes nothing when the user's repository has no prunable registration. *)
 Theorem C20_prune_is_noop_in_cleanup :
-  forall s p b c a, fresh p s = true -> no_prunable s = true -> wt_prune (conc s p b c a) = conc s p b c a.
+  forall s p b c a, fresh p s = true -> no_prunable s = true -> a <> AStale -> wt_prune (conc s p b c a) = conc s p b c a.
 Proof. exact prune_is_noop_in_cleanup. Qed.
 Print Assumptions C20_prune_is_noop_in_cleanup.
 
@@ -137,10 +206,23 @@ Theorem C20_checkout_name_safe :
 Proof. exact checkout_name_safe. Qed.
 Print Assumptions C20_checkout_name_safe.
 
-(* Returned objects: their lines come from the lines collection filled while the checkout existed. *)
+(* Returned objects: every file loaded from the checkout (static or dynamic analysis) gives the lines it had at that
+   reference on EVERY file system -- in particular once the checkout no longer exists. *)
 Theorem C20_objects_self_contained :
-  forall checkout files lc rel ls,
+  forall fs checkout files lc rel ls,
   NoDup (map fst files) -> In (rel, ls) files ->
-  obj_lines (visit_files checkout files lc) (checkout ++ rel) = ls.
+  obj_lines fs (visit_files checkout files lc) (checkout ++ rel) = ls.
 Proof. exact objects_self_contained. Qed.
 Print Assumptions C20_objects_self_contained.
+
+(* ... and for every path and span whatsoever, lines and source of an object do not depend on the file system
+   (the collection holds lines, never a promise to read them later; deferred_depends_on_filesystem shows the
+   statement fails as soon as it holds one). *)
+Theorem C20_lines_independent_of_filesystem :
+  forall fs1 fs2 checkout files lc filepath lineno endlineno,
+  all_stored lc = true ->
+  obj_lines fs1 (visit_files checkout files lc) filepath = obj_lines fs2 (visit_files checkout files lc) filepath /\
+  obj_source fs1 (visit_files checkout files lc) filepath lineno endlineno
+  = obj_source fs2 (visit_files checkout files lc) filepath lineno endlineno.
+Proof. exact lines_independent_of_filesystem. Qed.
+Print Assumptions C20_lines_independent_of_filesystem.
